@@ -107,6 +107,17 @@ Theorem history_describe_equals_fresh_server : forall H ops1 d ops2,
         (hist_run H h_init (filter is_mutator ops1 ++ [ODescPipe])) BNone.
 Proof. exact history_describe_fresh. Qed.
 
+(* HttpServer-level configuration (SetProtocolName, SetPrefix, SetRepoURL, page
+   toggles, CORS ...) is not an input of describe: as a history op it leaves the
+   surface alone (so the three theorems above hold with such ops anywhere in
+   ops1), and as static configuration it does not change any observation. *)
+Theorem http_front_end_settings_irrelevant :
+  (forall s k v, apply_mut s (OHttpSet k v) = s)
+  /\ (forall H cfg regs regs2 sub hist hc1 hc2,
+        model_with H (Build_input cfg regs regs2 sub hist hc1)
+        = model_with H (Build_input cfg regs regs2 sub hist hc2)).
+Proof. exact http_settings_irrelevant. Qed.
+
 (* every describe observation of every history meets the per-response spec
    (sorted, each once, contract rows, payload = reference framing, digest = that
    of a fresh server with the same surface) *)
